@@ -112,6 +112,7 @@ def explore(func, params, limits, seed=0, validate_every=1, max_validate=400):
     ctx = Context(query_timeout_ms=limits.get("query_timeout_ms", 20000),
                   max_decisions=limits.get("max_decisions", 4000),
                   concretize_cap=limits.get("concretize_cap", 300), seed=seed)
+    ctx.fast_ms = limits.get("fast_ms", 3000)
     max_paths = limits.get("max_paths", 200000)
     deadline = time.time() + limits.get("job_timeout_s", 3600)
     res = dict(paths=0, violations=[], inconclusive=[], mismatches=[], validated=0, samples=[],
